@@ -215,6 +215,9 @@ def build_axm():
     sp = os.path.join(ROOT, "model/_build/stamp")
     if os.path.exists(AXM) and os.path.exists(sp) and open(sp).read() == stamp:
         return True, "cached"
+    ok, mout = coq_make(["theories/Model/Machine.vo", "theories/Spec/RegFile.vo"])
+    if not ok:
+        return False, "model does not compile: " + coq_error_summary(mout)
     rc, out = sh([os.path.join(ROOT, "model/build.sh")], timeout=1200)
     if rc == 0:
         open(sp, "w").write(stamp)
